@@ -67,6 +67,8 @@ def actors(plan, r, nh, nact=None, suspend=True, bounds=True, prios=True, io=Tru
                     e.append('bound=%r' % r.choice([0.25e9, 0.5e9, 1e9]))
                 if prios and r.chance(0.2):
                     e.append('prio=%r' % r.choice([0.5, 2.0]))
+                if threads and r.chance(0.25):
+                    e.append('threads=%d' % r.randint(2, 3))
                 ops.append(e)
                 mine.append(s)
                 execs.append(s)
@@ -88,7 +90,9 @@ def actors(plan, r, nh, nact=None, suspend=True, bounds=True, prios=True, io=Tru
                 ops.append(['sleep', r.randint(1, 4) * 0.25])
                 ops.append(['aresume', s])
             elif mine and prios:
-                ops.append(['set_prio', r.choice(mine), r.choice([0.5, 1.0, 3.0])])
+                # (values that coincide with thread counts and with the current priority included: an update that
+                # changes nothing must not lose the completion event either)
+                ops.append(['set_prio', r.choice(mine), r.choice([0.5, 1.0, 2.0, 3.0])])
             else:
                 ops.append(['sleep', gen.think(r, 0.1)])
         for s in mine:
